@@ -16,6 +16,7 @@ type Gen struct {
 	enumAlph []string
 	sortAlph []string
 	lastStr  string
+	enumHot  []string // strings whose hashes collide / chain: favoured by this generator
 }
 
 func newGen(seed int64, pool string) *Gen {
@@ -24,6 +25,14 @@ func newGen(seed int64, pool string) *Gen {
 	g.enumAlph = []string{"", "red", "green", "blue", "x", "\xff\xfe", "a-much-longer-enum-value-than-the-others"}
 	for _, p := range findEnumCollisions() {
 		g.enumAlph = append(g.enumAlph, p[0], p[1])
+	}
+	for _, c := range enumChains() {
+		g.enumAlph = append(g.enumAlph, c...)
+	}
+	// every second generator concentrates on one collision group, so that whole probe chains
+	// (not just one colliding pair) are interned in all orders
+	if groups := append(append([][]string{}, enumChains()...), pairsAsGroups(findEnumCollisions())...); len(groups) > 0 && g.rng.Intn(2) == 0 {
+		g.enumHot = groups[g.rng.Intn(len(groups))]
 	}
 	g.sortAlph = []string{"", "a", "b", "c", "bb", "a\x00"}
 	return g
@@ -196,6 +205,9 @@ func (g *Gen) value(c ColSpec) Val {
 		}
 		return Val{S: g.str()}
 	case k == KEnum:
+		if len(g.enumHot) > 0 && g.rng.Intn(2) == 0 {
+			return Val{S: g.enumHot[g.rng.Intn(len(g.enumHot))]}
+		}
 		return Val{S: g.enumAlph[g.rng.Intn(len(g.enumAlph))]}
 	case k.IsRecord():
 		return Val{S: g.rec()}
